@@ -23,7 +23,8 @@ EXTENDS AuthData, U2f, Dispatch, Json, FiniteSets
 
 CONSTANTS F,             \* feature configuration, a subset of Features
           Cases,         \* the scenario's generator: a set of case records (each has .op)
-          MaxExchanges   \* how many exchanges a behaviour may contain
+          MaxExchanges,  \* how many exchanges a behaviour may contain
+          GenOutcomes    \* what the fuzzing generators may produce (resolved by the trace)
 
 VARIABLES phase,    \* "idle" | "received" | "decoded" | "called" | "returned" | "encoded"
           case,     \* the generator case driving this exchange
@@ -184,12 +185,24 @@ Lookup ==
     /\ phase' = "decoded"
     /\ UNCHANGED <<case, wire, calls, ret, buf, stale, nexch>>
 
-\* dispatch of a decoded (or given) request to the authenticator
+\* C19: the crate's Arbitrary implementations turn raw bytes into a request, or report that
+\* the bytes ran out.  How the bytes are consumed is the arbitrary crate's business and is not
+\* modelled: the outcome is nondeterministic here and resolved by the recorded value.
+Generate(r) ==
+    /\ phase = "received" /\ case.op = "arbitrary"
+    /\ req' = r
+    /\ phase' = "decoded"
+    /\ UNCHANGED <<case, wire, calls, ret, buf, stale, nexch>>
+
+\* dispatch of a decoded (or given, or generated) request to the authenticator
 Call ==
     /\ \/ phase = "decoded" /\ case.op = "exchange" /\ req.ok
        \/ phase = "received" /\ case.op = "dispatch"
-    /\ LET variant == IF case.op = "exchange" THEN req.cmd ELSE case.variant
-           d == Model_dispatch(variant, case.script, case.hasLb)
+       \/ phase = "decoded" /\ case.op = "arbitrary" /\ req.result = "ok"
+    /\ LET variant == IF case.op = "dispatch" THEN case.variant ELSE req.cmd
+           script  == IF case.op = "arbitrary" THEN [ok |-> TRUE, err |-> 0] ELSE case.script
+           hasLb   == IF case.op = "arbitrary" THEN TRUE ELSE case.hasLb
+           d == Model_dispatch(variant, script, hasLb)
        IN  /\ calls' = d.calls
            /\ ret' = d
     /\ phase' = "returned"
@@ -237,7 +250,8 @@ SerializeAuthDataAct ==
 \* the last phase of the exchange that `case` describes
 Terminal ==
     \/ phase = "decoded" /\ case.op \in {"decode2", "apdu", "decode_type"} \cup LookupOps
-    \/ phase = "returned" /\ case.op = "dispatch"
+    \/ phase = "returned" /\ case.op \in {"dispatch", "arbitrary"}
+    \/ phase = "decoded" /\ case.op = "arbitrary" /\ req.result # "ok"
     \/ phase = "encoded"
 
 NextExchange ==
@@ -249,6 +263,7 @@ NextExchange ==
 Next ==
     \/ \E c \in Cases : HostSends(c)
     \/ Decode2 \/ Decode1 \/ DecodeType \/ Lookup \/ Call \/ Reject
+    \/ \E r \in GenOutcomes : Generate(r)
     \/ Encode2 \/ Encode1 \/ EncodeType \/ SerializeAuthDataAct
     \/ NextExchange
 
@@ -316,6 +331,60 @@ DecodeTotal ==
         \/ req.ok /\ req.status = 0
         \/ ~req.ok /\ req.status \in {ST_InvalidCommand, ST_InvalidCbor, ST_MissingParameter}
 
+
+(***************************************************************************)
+(* C19: what "internally valid" means for a request value: every text      *)
+(* member is well-formed UTF-8, every bounded member is within its         *)
+(* capacity, every list within its count, every enumeration in its table.  *)
+(***************************************************************************)
+RECURSIVE ValidTy(_, _)
+ValidMember(m, val) ==
+    IF m.req \/ m.ty.t \in {"opt", "some", "strTrunc", "strSkip"} THEN ValidTy(m.ty, val) ELSE FALSE
+
+ValidTy(ty, v) ==
+    CASE ty.t = "u8"   -> v \in 0..255
+      [] ty.t = "u32"  -> IsBigNat(v) /\ BNLE(v, BNMaxU32)
+      [] ty.t = "u64"  -> IsBigNat(v) /\ BNLE(v, BNMaxU64)
+      [] ty.t = "i32"  -> v \in Int
+      [] ty.t = "bool" -> v \in BOOLEAN
+      [] ty.t = "unit" -> v = << >>
+      [] ty.t = "bytes" -> IsBytes(v) /\ (ty.max < 0 \/ Len(v) <= ty.max)
+      [] ty.t = "bytesExact" -> IsBytes(v) /\ Len(v) = ty.n
+      [] ty.t = "str" -> IsBytes(v) /\ IsUtf8(v) /\ (ty.max < 0 \/ Len(v) <= ty.max)
+      [] ty.t \in {"strTrunc", "strSkip"} ->
+            v = << >> \/ (Len(v) = 1 /\ IsBytes(v[1]) /\ IsUtf8(v[1]) /\ Len(v[1]) <= ty.L)
+      [] ty.t = "iconInner" -> v = << >>
+      [] ty.t = "enumU8" -> v \in ty.set
+      [] ty.t = "enumStr" -> v \in ty.tab
+      [] ty.t = "seq" -> (ty.max < 0 \/ Len(v) <= ty.max) /\ \A i \in 1..Len(v) : ValidTy(ty.e, v[i])
+      [] ty.t = "params" -> Len(v) <= 2 /\ \A i \in 1..Len(v) : v[i] \in KnownAlgs
+      [] ty.t = "formats" -> /\ Len(v.known) <= 2 /\ \A i \in 1..Len(v.known) : v.known[i] \in FormatNames
+                             /\ v.unknown \in BOOLEAN
+      [] ty.t \in {"struct", "indexed"} ->
+            LET ms == Members(ty.s, F) IN \A i \in 1..Len(ms) : ValidMember(ms[i], v[ms[i].name])
+      [] ty.t = "cose" -> IsBytes(v.x) /\ IsBytes(v.y) /\ Len(v.x) <= 32 /\ Len(v.y) <= 32
+      [] ty.t \in {"opt", "some"} -> v = << >> \/ (Len(v) = 1 /\ ValidTy(ty.i, v[1]))
+      [] OTHER -> FALSE
+
+ValidRequest(r) ==
+    IF r.proto = "ctap2"
+    THEN LET cs == {c \in 0..255 : CommandTable[c].name = r.cmd /\ CommandTable[c].kind \in {"params", "noparams", "vendor"}} IN
+         /\ cs # {}
+         /\ LET c == CHOOSE c \in cs : TRUE IN
+            IF CommandTable[c].kind = "params" THEN ValidTy(T_Indexed(CommandTable[c].schema), r.v) ELSE TRUE
+    ELSE /\ r.cmd \in Ctap1Variants
+         /\ (r.cmd = "Register" => Len(r.v.challenge) = 32 /\ Len(r.v.appId) = 32)
+         /\ (r.cmd = "Authenticate" =>
+                Len(r.v.challenge) = 32 /\ Len(r.v.appId) = 32 /\ r.v.control \in U2fControlBytes /\ IsBytes(r.v.keyHandle))
+
+\* generation either reports that the bytes ran out or yields a valid request that can be
+\* formatted, cloned, compared and dispatched (to exactly its handler)
+GeneratedValid ==
+    phase \in {"decoded", "returned"} /\ case.op = "arbitrary" =>
+        \/ req.result = "not_enough_data"
+        \/ /\ req.result = "ok" /\ ValidRequest(req)
+           /\ req.debug_ok /\ req.clone_eq /\ req.dispatch_ok
+           /\ req.calls = <<HandlerOf(req.cmd)>>
 
 (***************************************************************************)
 (* C01: a well-formed request (case.sv is the sent value) decodes to the   *)
